@@ -24,6 +24,7 @@ import (
 type c03N struct {
 	name   string
 	typ    int // 0 file, 1 dir, 2 symlink, 3 fifo, 4 char device, 5 hard link (target = source)
+	ltyp   int // typ 5: type of the link source (0 file, 3 fifo, 4 char device)
 	perm   uint32
 	uid    uint32
 	gid    uint32
@@ -37,7 +38,7 @@ type c03N struct {
 }
 
 var (
-	c03Pool    = []string{"a", "b", "c", "d", "l", "m"}
+	c03Pool    = []string{"a", "b", "c", "d", "l", "m", "g", "f"} // d, f, g also name entries of the sentinel tree
 	c03OutLink = []string{"/out", "/out/f", "/out/d", "/out/d/g", "../../out/f", "../../out/d", "../sib", "..", "../..", "/",
 		"/secret", "../../secret", "/out/new", "../new", "/w/sib", "/out/s"}
 	c03InLink = []string{"a", "b", "b/c", ".", "l", "m", "nonexistent", "/w/dest/a", "../dest/a", "a/../b"}
@@ -133,7 +134,7 @@ func c03AddHardlinks(r *Rng, root *[]*c03N) {
 	var flat []c03Flat
 	c03Walk(*root, "", &flat)
 	for _, f := range flat {
-		if f.n.typ != 0 || !r.Chance(20) {
+		if (f.n.typ != 0 && f.n.typ != 3 && f.n.typ != 4) || !r.Chance(20) {
 			continue
 		}
 		// sibling-level name that sorts after the source and is free
@@ -159,7 +160,7 @@ func c03AddHardlinks(r *Rng, root *[]*c03N) {
 		if dup {
 			continue
 		}
-		h := &c03N{name: name, typ: 5, target: f.path, perm: f.n.perm, uid: f.n.uid, gid: f.n.gid, mtime: f.n.mtime, data: f.n.data, xattrs: f.n.xattrs}
+		h := &c03N{name: name, typ: 5, ltyp: f.n.typ, rdev: f.n.rdev, target: f.path, perm: f.n.perm, uid: f.n.uid, gid: f.n.gid, mtime: f.n.mtime, data: f.n.data, xattrs: f.n.xattrs}
 		*kids = append(*kids, h)
 		sort.Slice(*kids, func(i, j int) bool { return (*kids)[i].name < (*kids)[j].name })
 	}
@@ -176,7 +177,11 @@ func c03GoMode(n *c03N) uint32 {
 	if n.perm&01000 != 0 {
 		m |= os.ModeSticky
 	}
-	switch n.typ {
+	typ := n.typ
+	if typ == 5 {
+		typ = n.ltyp // a further name of a fifo / device carries the type bits and the Linkname
+	}
+	switch typ {
 	case 1:
 		m |= os.ModeDir
 	case 2:
@@ -203,6 +208,9 @@ func c03StatOf(path string, n *c03N) *types.Stat {
 	case 5:
 		st.Size = int64(len(n.data))
 		st.Linkname = n.target
+		if n.ltyp == 4 {
+			st.Devmajor, st.Devminor = int64(n.rdev>>8&0xfff), int64(n.rdev&0xff)
+		}
 	}
 	if len(n.xattrs) > 0 {
 		st.Xattrs = map[string][]byte{}
@@ -349,7 +357,7 @@ func c03Mutate(r *Rng, kids []*c03N, depth int) []*c03N {
 				}
 			}
 			if c.typ == 5 {
-				c.typ = 0
+				c.typ = c.ltyp
 			}
 			if c.typ == 1 {
 				c.kids = c03Mutate(r, k.kids, depth+1)
@@ -379,7 +387,8 @@ func c03Mutate(r *Rng, kids []*c03N, depth int) []*c03N {
 	return out
 }
 
-func c03Items(src []*c03N) []c03Item {
+// wanted(path, same): would an honest sender be asked for the content of this regular file
+func c03Items(src []*c03N, wanted func(string, bool) bool) []c03Item {
 	var flat []c03Flat
 	c03Walk(src, "", &flat)
 	present := map[string]*c03N{}
@@ -388,9 +397,9 @@ func c03Items(src []*c03N) []c03Item {
 		n := f.n
 		if n.typ == 5 {
 			// an honest walker names the first member of the group; if that one is gone the link is the file
-			if s, ok := present[n.target]; !ok || s.typ != 0 {
+			if s, ok := present[n.target]; !ok || s.typ != n.ltyp {
 				n = c03Clone(n)
-				n.typ = 0
+				n.typ = n.ltyp
 				n.same = false
 			}
 		}
@@ -398,7 +407,7 @@ func c03Items(src []*c03N) []c03Item {
 		it := c03Item{st: c03StatOf(f.path, n)}
 		if n.typ == 0 {
 			it.data = n.data
-			it.want = !n.same
+			it.want = wanted(f.path, n.same)
 		}
 		items = append(items, it)
 	}
@@ -587,6 +596,13 @@ func c03Corrupt(r *Rng, pk []Sx, dest []*c03N) ([]Sx, string) {
 		if r.Chance(20) {
 			h.Xattrs = map[string][]byte{"user.h": []byte("1")}
 		}
+		if r.Chance(30) { // a further name of a fifo / device; type bits that contradict each other
+			h.Mode |= Pick(r, []uint32{uint32(os.ModeNamedPipe), uint32(os.ModeDevice | os.ModeCharDevice), uint32(os.ModeDevice),
+				uint32(os.ModeDevice | os.ModeSymlink), uint32(os.ModeNamedPipe | os.ModeSymlink), uint32(os.ModeSocket)})
+			if os.FileMode(h.Mode)&os.ModeDevice != 0 {
+				h.Devmajor, h.Devminor = 1, 3
+			}
+		}
 		if r.Chance(50) {
 			pk[i] = c03StatPk(h)
 		} else {
@@ -656,6 +672,16 @@ func c03Corrupt(r *Rng, pk []Sx, dest []*c03N) ([]Sx, string) {
 		if os.FileMode(st.Mode)&os.ModeDevice != 0 {
 			st.Devmajor, st.Devminor = 1, 3
 		}
+		if r.Chance(35) { // ... together with a Linkname: an earlier entry of the stream, or somewhere else
+			var names []string
+			for _, j := range stats {
+				if j < i {
+					names = append(names, SxStat(pk[j].L[1]).Path)
+				}
+			}
+			names = append(names, Pick(r, c03OutLink))
+			st.Linkname = Pick(r, names)
+		}
 		pk[i] = c03StatPk(st)
 		return pk, "odd-mode"
 	}
@@ -681,23 +707,151 @@ func fsutilCompare(a, b string) int {
 
 var c03DestStrings = []string{"/w/dest", "/w/dest", "/w/dest", "w/dest", "/lnk", "lnk", "/w/dest/", "/out/../w/dest", "/w/./dest"}
 
+const c03ListingName = ".fsutil-metadata" // receive.go metadataPath: the one name the epilogue of a metadata transfer touches
+
+// a callback of ReceiveOpt in the form (default (path ...)), see c03_recv.go
+type c03Pred struct {
+	set   bool
+	def   bool
+	paths map[string]bool
+}
+
+func (p c03Pred) ok(path string) bool { return !p.set || p.def != p.paths[path] }
+
+// force makes the callback answer val for path
+func (p *c03Pred) force(path string, val bool) {
+	if p.set {
+		if p.def == val {
+			delete(p.paths, path)
+		} else {
+			p.paths[path] = true
+		}
+	}
+}
+func (p c03Pred) sx() Sx {
+	if !p.set {
+		return L()
+	}
+	var ps []string
+	for k := range p.paths {
+		ps = append(ps, k)
+	}
+	sort.Strings(ps)
+	var xs []Sx
+	for _, k := range ps {
+		xs = append(xs, S(k))
+	}
+	return L(Bool(p.def), L(xs...))
+}
+
+// MetadataOnly selector: all (everything transferred in full) / none / some
+func c03GenPred(r *Rng, paths []string) c03Pred {
+	p := c03Pred{set: true, def: r.Chance(50), paths: map[string]bool{}}
+	if r.Chance(35) {
+		return p // all or none
+	}
+	for _, q := range paths {
+		if r.Chance(40) {
+			p.paths[q] = true
+		}
+	}
+	if r.Chance(20) {
+		p.paths[Pick(r, c03BadPaths)] = true
+	}
+	return p
+}
+
 func c03Case(r *Rng) (Sx, string, bool) {
 	budget := 3 + r.Intn(9)
 	dest := c03GenKids(r, 0, &budget, false)
+	merge := r.Chance(25)
+	metaMode := r.Chance(35)
+	if metaMode {
+		merge = r.Chance(50)
+	}
+	if r.Chance(map[bool]int{false: 4, true: 45}[metaMode]) {
+		// the destination already holds something under the listing name
+		b := 4
+		n := c03GenNode(r, c03ListingName, 2, &b, false)
+		dest = append([]*c03N{n}, dest...)
+		sort.Slice(dest, func(i, j int) bool { return dest[i].name < dest[j].name })
+	}
 	c03AddHardlinks(r, &dest)
 	outsideHL := ""
 	if r.Chance(6) {
 		outsideHL = "oh"
 	}
 	src := c03Mutate(r, dest, 0)
-	items := c03Items(src)
+	var srcFlat []c03Flat
+	c03Walk(src, "", &srcFlat)
+	var srcPaths []string
+	for _, f := range srcFlat {
+		srcPaths = append(srcPaths, f.path)
+	}
+	var mo c03Pred
+	if metaMode {
+		mo = c03GenPred(r, srcPaths)
+	}
+	items := c03Items(src, func(p string, same bool) bool {
+		if metaMode && (p == c03ListingName || !mo.ok(p)) {
+			return false
+		}
+		return merge || !same
+	})
 	if outsideHL != "" && r.Chance(70) { // the stream agrees with the second name of /out/f ...
 		st := &types.Stat{Path: outsideHL, Mode: 0644, Size: 3, ModTime: int64(1e18) + 11}
 		items = append(items, c03Item{st: st})
 		sort.Slice(items, func(i, j int) bool { return fsutilCompare(items[i].st.Path, items[j].st.Path) < 0 })
 	}
+	linkThrough := false
+	if metaMode && r.Chance(18) {
+		// a name that the destination holds as a symlink to a directory outside is announced as a
+		// directory with a child the outside directory really has, both only recorded; then a
+		// hard link to that child which is transferred
+		type cand struct{ name, child string }
+		var cands []cand
+		for _, k := range dest {
+			if k.typ == 2 {
+				switch k.target {
+				case "/out", "../../out":
+					cands = append(cands, cand{k.name, "f"})
+				case "/out/d", "../../out/d":
+					cands = append(cands, cand{k.name, "g"})
+				case "..":
+					cands = append(cands, cand{k.name, "sib"})
+				case "/", "../..":
+					cands = append(cands, cand{k.name, "secret"})
+				}
+			}
+		}
+		if len(cands) > 0 {
+			cd := Pick(r, cands)
+			var keep []c03Item
+			for _, it := range items { // the stream's own version of that name goes
+				if it.st.Path != cd.name && !strings.HasPrefix(it.st.Path, cd.name+"/") {
+					keep = append(keep, it)
+				}
+			}
+			hl := cd.name + "~h"
+			keep = append(keep,
+				c03Item{st: &types.Stat{Path: cd.name, Mode: uint32(os.ModeDir | 0755), ModTime: c03Mtime(r)}},
+				c03Item{st: &types.Stat{Path: cd.name + "/" + cd.child, Mode: 0644, ModTime: c03Mtime(r)}},
+				c03Item{st: &types.Stat{Path: hl, Mode: 0644, ModTime: c03Mtime(r), Linkname: cd.name + "/" + cd.child}})
+			sort.Slice(keep, func(i, j int) bool { return fsutilCompare(keep[i].st.Path, keep[j].st.Path) < 0 })
+			items = keep
+			mo.set = true
+			mo.force(cd.name, false)
+			mo.force(cd.name+"/"+cd.child, false)
+			mo.force(hl, true)
+			merge = r.Chance(80)
+			linkThrough = true
+		}
+	}
 	pk := c03Play(r, items)
 	class := "valid"
+	if linkThrough {
+		class = "link-through"
+	}
 	if outsideHL != "" && r.Chance(60) {
 		// ... and then names it as the source of a hard link that carries other metadata
 		h := &types.Stat{Path: outsideHL + "z", Mode: uint32(Pick(r, c03Perms) & 0777), Uid: Pick(r, c03Ids), Gid: Pick(r, c03Ids),
@@ -713,11 +867,34 @@ func c03Case(r *Rng) (Sx, string, bool) {
 		}
 		class = "shared-inode-link"
 	}
-	if class == "valid" && r.Chance(72) {
+	if (class == "valid" || (linkThrough && r.Chance(25))) && r.Chance(map[bool]int{false: 72, true: 55}[metaMode]) {
 		pk, class = c03Corrupt(r, pk, dest)
 		if r.Chance(12) {
 			pk, _ = c03Corrupt(r, pk, dest)
 			class = "two-corruptions"
+		}
+	}
+	if metaMode {
+		class = "meta-" + class
+		if r.Chance(40) {
+			// forward the hard links of the stream but not what they name (nor the directories above it)
+			for _, i := range c03StatIdx(pk) {
+				st := SxStat(pk[i].L[1])
+				m := os.FileMode(st.Mode)
+				if st.Linkname == "" || m.IsDir() || m&os.ModeSymlink != 0 {
+					continue
+				}
+				mo.force(st.Path, true)
+				for q := st.Linkname; q != "" && q != "."; {
+					mo.force(q, false)
+					if j := strings.LastIndexByte(q, '/'); j >= 0 {
+						q = q[:j]
+					} else {
+						q = ""
+					}
+				}
+			}
+			class += "+link-sel"
 		}
 	}
 	outLinks := 0
@@ -728,7 +905,7 @@ func c03Case(r *Rng) (Sx, string, bool) {
 			outLinks++
 		}
 	}
-	in := L(c03SetupOps(dest, outsideHL), S(Pick(r, c03DestStrings)), L(pk...), Bool(r.Chance(25)))
+	in := L(c03SetupOps(dest, outsideHL), S(Pick(r, c03DestStrings)), L(pk...), Bool(merge), L(mo.sx(), L()))
 	return in, class, outLinks >= 1 && len(pk) >= 3
 }
 
